@@ -700,7 +700,8 @@ def run(ctx):
            "empty_dists": 0, "int_weight_dists": 0, "large_magnitude_dists": 0, "tiny_probability_dists": 0,
            "falsy_event_dists": 0, "det_on_falsy_event": 0, "shadow_object_first": 0, "default_real_function": 0,
            "int_scalars": 0, "seed_zero": 0, "and_with_zero_probability_entry": 0, "condition_all_rejected": 0,
-           "uniform_str_support_nonmember_probes": 0, "uniform_str_support_nonmember_anomalies": 0}
+           "uniform_str_support_nonmember_probes": 0, "uniform_str_support_nonmember_anomalies": 0,
+           "model_skipped_subnormal_floats": 0}
     reps = {}
     FALSY = {ID[v] for v in UNIVERSE if not v}
 
@@ -778,6 +779,16 @@ def run(ctx):
             if nonfin:
                 viol("C11:items:non-finite-probability", i,
                      {"which": nonfin[0][0], "items": nonfin[0][1], "what": "a constructed distribution has a nan/inf probability"}, True)
+                continue
+            if any(vlib.frac(p).denominator.bit_length() > 300 for _, it in allitems for _, p in it):
+                # softmax underflow region: floats like 1e-308 have 1000-bit denominators, exact gcds in the
+                # model take seconds.  The distribution itself is still tied to the R model by its interval
+                # goals; the operations on it are judged by the exact Python oracle of the calculus instead.
+                cnt["model_skipped_subnormal_floats"] += 1
+                why = oracle(case, res)
+                if why:
+                    op = sorted(why)[0]
+                    viol("C11:%s:%s" % (op, why[op][:80]), i, {"failing_clause": why, "impl": res}, True)
                 continue
             terms.append(case_term(case, res, draws))
             meta.append(i)
